@@ -400,6 +400,83 @@ def diverge_ids(p, rng, spread=3):
         p.ts._channel_counter = b & 0xFFFFFF
 
 
+def parked_writer_scenario(p, c, s, role, api, ender, size, window):
+    """A writer parked in the send-window wait (window == 0) while another thread ends the stream (shutdown_write /
+    close); the peer's WINDOW_ADJUST is processed *before* the woken writer gets the channel lock back.
+    Forced with a held link direction (the adjust waits behind the gate) and an instance wrapper on
+    out_buffer_cv.wait that makes the woken writer lose the race for the lock until the adjust is in.
+    Preconditions: `window` is what the peer granted x.  Returns a dict describing what happened."""
+    x, y = (c, s) if role == "c" else (s, c)
+    to_x = p.link.ba if role == "c" else p.link.ab
+    out = dict(ok=False)
+    x.settimeout(60)
+    send_all(x, bytes(window), random.Random(1))
+    x.settimeout(None)
+    if x.out_window_size != 0 or not _wait(lambda: len(y.in_buffer) == window, 20):
+        out["why"] = "window not exhausted"
+        return out
+    res = {}
+    me = {}
+    cv = x.out_buffer_cv
+    orig = cv.wait
+    seen = dict(lost_race=0, adjust_in_before_reacquire=0)
+
+    def wait(timeout=None):
+        r = orig(timeout)
+        if threading.get_ident() == me.get("id") and (x.eof_sent or x.closed) and not seen["lost_race"]:
+            # woken by the end-of-stream notify: lose the race for the channel lock until the adjust has been processed
+            seen["lost_race"] = 1
+            x.lock.release()
+            try:
+                if _wait(lambda: x.out_window_size > 0, 10):
+                    seen["adjust_in_before_reacquire"] = 1
+            finally:
+                x.lock.acquire()
+        return r
+
+    cv.wait = wait
+
+    def call():
+        me["id"] = threading.get_ident()
+        try:
+            res["value"] = getattr(x, api)(b"\x5a" * size)
+            res["outcome"] = "returned"
+        except BaseException as e:
+            res["outcome"] = "raised:" + type(e).__name__
+
+    t = threading.Thread(target=call, daemon=True, name="parked-writer")
+    t.start()
+    if not _wait(lambda: "_wait_for_send_window" in " ".join(stacks_of([t]).get("parked-writer", [])), 20):
+        out["why"] = "writer did not park"
+        return out
+    to_x.hold()
+    got = y.recv(window)  # one adjust of `window` bytes, now waiting behind the gate
+    if len(got) != window or not _wait(lambda: to_x.held, 10):
+        to_x.release()
+        out["why"] = "no adjust behind the gate"
+        return out
+    if ender == "shutdown_write":
+        x.shutdown_write()
+    else:
+        x.close()
+    _wait(lambda: seen["lost_race"], 10)
+    to_x.release()  # EOF/CLOSE decided -> adjust processed -> only then does the writer get the lock back
+    t.join(60)
+    out.update(ok=not t.is_alive(), thread=t, ident=me.get("id"), seen=seen, res=res)
+    if t.is_alive():
+        out["why"] = "writer did not return"
+    return out
+
+
+def _wait(cond, timeout, step=0.002):
+    end = time.monotonic() + timeout
+    while time.monotonic() < end:
+        if cond():
+            return True
+        time.sleep(step)
+    return bool(cond())
+
+
 class PollReader:
     """A receiving application that keeps reading both streams (polling, so it can
     never block itself on the wrong stream).  `settle()` proves the reader is
